@@ -318,6 +318,7 @@ EXH_KINDS = ["chgcoef_basic", "chgcoef_nonbasic", "sense_basic", "sense_tight", 
 
 SEED_LPS = [
     mk("seedA", True, [(3, 0, 10), (2, 0, 10), (4, 0, 10)], [("L", 12, 0, [(0, 3), (1, 2), (2, 1)]), ("R", 2, 6, [(0, 1), (1, 1), (2, 2)]), ("G", 1, 0, [(0, 1), (2, 1)])]),
+    mk("seedC", True, [(-1, 0, 10), (-2, 0, 10)], [("G", 2, 0, [(0, 1), (1, 1)]), ("L", 30, 0, [(0, 1), (1, 2)])]),      # tight G row with a negative dual
     mk("seedB", False, [(1, 0, INF), (2, 0, INF), (-1, 0, 4), (0, -2, 2)], [("G", 4, 0, [(0, 1), (1, 1), (2, 1)]), ("L", 10, 0, [(0, 2), (1, 1), (3, 1)]), ("E", 3, 0, [(0, 1), (2, 1), (3, 1)])]),
 ]
 
@@ -423,6 +424,22 @@ def api_model_script(r):
     return lines, cstates, flags
 
 
+def status_vs_bounds(ulp, acc):
+    """the stored basis marks a column FREE although it has a finite bound, or at a bound that is infinite
+    (arises from QSchange_bound on a non-basic column: the status is not adjusted)"""
+    b = acc.get("basis")
+    if not b or b[0] == "-":
+        return False
+    cols = [l.split() for l in ulp if l.startswith("UC ")]
+    if len(cols) != len(b[0]):
+        return False
+    for c, t in zip(b[0], cols):
+        lo, up = t[3], t[4]
+        if (c == "3" and (lo != "-inf" or up != "inf")) or (c == "0" and lo == "-inf") or (c == "2" and up == "inf"):
+            return True
+    return False
+
+
 def zvec(a):
     return a["x"][1] + a["slack"][1]
 
@@ -500,6 +517,14 @@ def main():
             if cview != mview:
                 api_stats["mismatches"] += 1
                 nstate = [i for i, l in enumerate(lines) if l == "STATE h0"][k_]
+                tainted = [kd for kd in r["kinds"] if kd in ("to_range", "chgrange")]
+                if tainted:
+                    # the internal form already differs from the query view (known finding on range edits): bases the library
+                    # produces there cannot be reloaded by ILLbasis_load, calls fail half-way; not a break of the Api model
+                    api_stats["mismatches_in_range_tainted_histories"] = api_stats.get("mismatches_in_range_tainted_histories", 0) + 1
+                    ck.violation("corr_api_%s.txt" % cid, "\n".join(r["script"]) + "\n", "Api state differs in a history after a range edit (%s): library %s, model %s" % (tainted[0], cview, mview),
+                                 match=dict(kind="internal-form", after=tainted[0]))
+                    break
                 ck.violation("corr_api_%s.txt" % cid, "\n".join(r["script"]) + "\n# model script:\n# " + "\n# ".join(lines[:nstate + 1]) + "\n# library: %s\n# model:   %s\n" % (cview, mview),
                              "correspondence Store.Api vs library state broke after `%s`: library %s, model %s" % (lines[nstate - 1][:60], cview, mview),
                              no_input=True, match=dict(kind="corr-api", op=lines[nstate - 1].split()[0]))
@@ -542,6 +567,9 @@ def main():
             if taint is None and crossed_bounds(ev["ulp"]):
                 taint = "crossed-bounds"
                 st["histories_with_crossed_bounds"] = st.get("histories_with_crossed_bounds", 0) + 1
+            if taint is None and status_vs_bounds(ev["ulp"], a):
+                taint = "basis-status-vs-bounds"
+                st["histories_with_status_vs_bounds"] = st.get("histories_with_status_vs_bounds", 0) + 1
             if ev["kind"] == "edit":
                 st["edits"] += 1
                 last_edits.append(ev["what"])
@@ -560,7 +588,13 @@ def main():
                         ok = bool(ref and ref["rv"] == 0 and ref["st"] == 1 and ref["val"] == a["objval"][1][:1])
                     if not ok and not claims and status_claim:
                         ok = False
-                    if not ok:
+                    if not ok and taint is None and ev["what"].startswith("delrow") and a.get("state", {}).get("cache") == "1":
+                        # ILLlib_delrows kept (repacked) the cache: the deleted rows were basic in the *stored basis* and had pi <= 0 -
+                        # but the stored basis need not be the basis of the cached solution (QSload_basis*), and pi < 0 is not pi = 0 (DESIGN 10 #18)
+                        taint = "delrows-kept-cache"
+                        report(("delrows-kept-cache",), r, ev, "after %s the cached solution is kept and served with status OPTIMAL although it is not optimal for the reduced LP "
+                               "(rows basic in the loaded basis, non-zero duals in the cached solution)" % ev["what"], dict(kind="delrows-kept-cache"))
+                    elif not ok:
                         report(("stale", ev["what"]) if taint is None else ("consequence-of-internal-form", taint, "stale"), r, ev, "after edit %s and before the next solve accessors %s answer%s, but the values are not an exact optimality certificate of the LP as it now stands" %
                                (ev["what"], claims, " (QSget_status = OPTIMAL)" if status_claim else ""), dict(kind="stale-accessor", after=ev["what"]))
             else:
@@ -614,7 +648,7 @@ def main():
         items.sort(key=lambda it: len(it[0]["script"]))
         r, ev, text, match = items[0]
         if key[0] == "consequence-of-internal-form":
-            match = dict(kind="internal-form", after=key[1]) if key[1] != "crossed-bounds" else dict(kind="crossed-bounds")
+            match = dict(kind="internal-form", after=key[1]) if key[1] not in ("crossed-bounds", "delrows-kept-cache", "basis-status-vs-bounds") else dict(kind=key[1])
         upto = ev["at"] if ev else len(r["script"])
         replay = "\n".join(r["script"][:upto]) + "\n# %s\n# %d histories show this; cases: %s\n" % (text, len(items), [it[0]["cid"] for it in items[:12]])
         ck.violation("%s_%s.txt" % ("_".join(str(k_).replace(" ", "") for k_ in key), r["cid"]), replay, "C05 %s (%d histories)" % (text, len(items)), match=match)
